@@ -47,7 +47,10 @@ EXT_BUILDERS = {
 
 
 def rand_name(r):
-    n = r.choice([1, 1, 3, 8, 12, 40])
+    if r.random() < 0.08:
+        # names a decoder might be tempted to treat specially
+        return r.choice([b".", b"..", b"...", b"a|", b"|b", b"/", b"\\", b"..\\x", b"a/..", b" ", b"x|../y"])
+    n = r.choice([1, 1, 2, 3, 8, 12, 40])
     alpha = r.choice([b"abcXYZ09._-", b"ABCDEF0123", b"aB|/\\\xff. \x01\x80\xfe", b"abc"])
     return bytes(r.choice(alpha) for _ in range(n))
 
